@@ -4,10 +4,11 @@
 d="$1"; shift
 cd /repo || exit 2
 if ! git apply --check "$d/patch.diff" 2>/dev/null; then echo "PATCH DOES NOT APPLY: $d"; exit 3; fi
+if ! git diff --quiet HEAD --; then echo "REFUSING: /repo has uncommitted changes"; exit 4; fi
 git apply "$d/patch.diff"
 for p in "$@"; do
   (cd /verif && ./check "$p" -no-evidence 2>&1 | grep -E "^(VIOLATION|KNOWN|NO VERDICT|C[0-9]+ )" )
   echo "exit($p)=$?"
 done
-git -C /repo checkout -- . 
+if ! git -C /repo diff --quiet HEAD -- ; then git -C /repo apply -R "$d/patch.diff"; fi
 git -C /repo status --short | grep -v '^??' | head -3
